@@ -103,7 +103,7 @@ def run_tlc(module, cfg_text, wd, workers=None, timeout=900, env_extra=None, sim
     shutil.rmtree(meta, ignore_errors=True)
     # java is started directly (same class path as the `tlc` wrapper) so that -Xss also applies to the
     # main thread, where TLC evaluates constant definitions and initial states
-    cmd = ["timeout", str(timeout), "java", "-Xss1g", "-XX:+UseParallelGC", "-cp", TLA_CP, "tlc2.TLC", "-workers", str(w), "-metadir", meta, "-cleanup", "-noGenerateSpecTE",
+    cmd = ["timeout", str(timeout), "java", "-Xss1g", "-Dfile.encoding=UTF-8", "-Dsun.stdout.encoding=UTF-8", "-Dstdout.encoding=UTF-8", "-XX:+UseParallelGC", "-cp", TLA_CP, "tlc2.TLC", "-workers", str(w), "-metadir", meta, "-cleanup", "-noGenerateSpecTE",
            "-config", cfgp]
     if coverage:
         cmd += ["-coverage", "1"]
